@@ -197,7 +197,7 @@ func c01Eval(c *ctx, cs c01Case) {
 		c01Check(c, cs, msg)
 	case "template":
 		// template with variables/ellipses, W optional, no session; completed by the producers
-		var msg *ast.DataMessage
+		var msg, expanded *ast.DataMessage
 		o := real.Try(func() {
 			t := &ref.Msg{Name: m.Name, Stream: m.Stream, Function: m.Function, W: 2, Dir: m.Dir, Item: cs.Tpl, Session: -1}
 			if m.W == 1 || m.Function%2 == 0 {
@@ -211,6 +211,7 @@ func c01Eval(c *ctx, cs c01Case) {
 				}
 				msg = msg.FillVariables(cm)
 			}
+			expanded = msg
 			raw := map[string]interface{}{}
 			for k, v := range cs.Sub {
 				raw[k] = rawOf(v)
@@ -224,6 +225,20 @@ func c01Eval(c *ctx, cs c01Case) {
 			return
 		}
 		c01Check(c, cs, msg)
+		// a second message is derived from the same (expanded) template with other values for every variable; the first
+		// message still is the message it was (what it shares with the template is not where the values live)
+		if len(cs.Sub) > 0 && cs.Tpl != nil {
+			g2 := gen.New(rng.New(rng.HashStr(ref.Print(cs.Tpl))+1), gen.Profile{})
+			sub2 := fullAssignment(g2, ref.Expand(cs.Tpl, cs.Counts))
+			raw2 := map[string]interface{}{}
+			for k, v := range sub2 {
+				raw2[k] = rawOf(v)
+			}
+			if o2 := real.Try(func() { _ = expanded.FillVariables(raw2).SetWaitBit(m.W == 1).ToBytes() }); !o2.Panicked {
+				c.Class("template/first-message-re-checked-after-a-second-derivation")
+				c01Check(c, cs, msg)
+			}
+		}
 	case "sml":
 		t := *m
 		t.Session = -1
@@ -492,7 +507,7 @@ func runC01(c *ctx) {
 	}
 	g := gen.New(r, gen.Profile{})
 	c01Eval(c, c01Case{Source: "constructors", Msg: g.Msg(&ref.Item{Kind: ref.L, Children: []*ref.Item{all, allA}}, true)})
-	c.Required = []string{"source/constructors", "source/template", "source/sml", "source/decoder", "source/restamped", "lists-of-empty-items", "items-at-the-size-limit", "message-longer-than-16MiB", "receive-buffer-reused", "nesting-chain", "nesting-chain-with-siblings", "shape/maxlenbytes=2", "shape/maxlenbytes=3"}
+	c.Required = []string{"source/constructors", "source/template", "source/sml", "source/decoder", "source/restamped", "lists-of-empty-items", "items-at-the-size-limit", "message-longer-than-16MiB", "receive-buffer-reused", "template/first-message-re-checked-after-a-second-derivation", "nesting-chain", "nesting-chain-with-siblings", "shape/maxlenbytes=2", "shape/maxlenbytes=3"}
 }
 
 func replayC01(c *ctx, raw json.RawMessage) {
